@@ -21,6 +21,8 @@ Scenario = JSON object (one per line in corpus/stats/*.txt and in replay files):
   {"kind":"wscale","xws":[[x,w],..],"c":10.0}                 the same data with weights w and c*w: identical statistics
   {"kind":"wunit","xs":[..]}                                  weights 1: identical to the unweighted summary
   {"kind":"wzero","xws":[[x,w],..]}                           zero-weight samples interspersed: bitwise identical without them
+  {"kind":"bigmerge","a":[..],"b":[..],"ka":33,"kb":32,"order":..,"target":..,"weighted":bool}
+                                                              summarise a and b, double them ka / kb times by merge(s,s,s), merge
   {"kind":"selfmerge","xs":[..],"weighted":bool}              merge(s, s, s): target and both sources are one object
   {"kind":"dataset","xs":[..]}                                through cmb_dataset_add / cmb_dataset_summarize (a user)
   {"kind":"timeseries","xts":[[x,t],..],"tend":T}             through cmb_timeseries_add / _finalize / _summarize (a user; non-empty)
@@ -100,7 +102,7 @@ def tv_cases(seed, n_cases):
     in most cases (the harness tells us for each call)."""
     rng = random.Random(seed * 7919 + 17)
     cases = []
-    fams = ["dseq", "dmerge", "dset_add", "dset_merge", "dacc", "wseq", "wset_add", "wset_merge", "wacc", "wmerge", "uninit"]
+    fams = ["dseq", "dmerge", "dset_add", "dset_merge", "dacc", "wseq", "wset_add", "wset_merge", "wacc", "wmerge", "uninit", "dbig"]
     for ci in range(n_cases):
         fam = fams[ci % len(fams)]
         ops = []
@@ -202,6 +204,25 @@ def tv_cases(seed, n_cases):
             t = rng.choice([0, 1, 2])
             a, b = rng.choice([(0, 1), (1, 0)])
             ops += [("wmerge", t, a, b), ("wget", t), ("wstat", t)]
+        elif fam == "dbig":
+            # counts of the order 2^32 .. 2^62 by repeated self-merge; values chosen so that the final merge is exact:
+            # equal sizes (n a power of two times la+lb) and means differing by a multiple of la+lb
+            la, lb = rng.choice([(1, 1), (2, 2), (1, 3), (3, 1), (2, 6), (4, 4)])
+            k = rng.choice([5, 30, 31, 32, 33, 40, 58])
+            base = _ri(rng, -4, 4)
+            for slot, ln, shift in ((0, la, 0.0), (1, lb, (la + lb) * _ri(rng, -3, 3))):
+                ops.append(("dinit", slot))
+                m1, n = 0.0, 0
+                for _ in range(ln):
+                    n += 1
+                    delta = _ri(rng, -3, 3) + ((base + shift) if n == 1 else 0.0)
+                    ops.append(("dadd", slot, m1 + n * delta))
+                    m1 += delta
+                for _ in range(k):
+                    ops.append(("dmerge", slot, slot, slot))
+            t = rng.choice([0, 1, 2])
+            a, b = rng.choice([(0, 1), (1, 0)])
+            ops += [("dmerge", t, a, b), ("dget", t), ("dstat", t)]
         else:  # uninit: calls on a summary that was never initialised must be rejected by both
             ops += [rng.choice([("dadd", 3, 1.0), ("wadd", 3, 1.0, 1.0), ("dinit", 0)]), ("dinit", 1), ("dadd", 1, 2.0), ("dget", 1)]
         cases.append((fam, ops))
@@ -319,12 +340,13 @@ def tv_compare(cases, c_exe):
 # Part (ii): exact statistics and scenarios
 # --------------------------------------------------------------------------
 
-def exact_stats(xws):
+def exact_stats(xws, count=None):
     """Textbook statistics of weighted samples [(x, w)] with w >= 0 (unweighted: w = 1), exactly.
+    `count`: the number of samples when it is not the number of pairs (data given with multiplicities: x repeated w times).
     Returns dict with Fractions for count/min/max/mean/variance, floats for skewness/kurtosis/stddev (None = undefined, i.e. 0/0),
     plus conditioning data."""
     eff = [(Fraction(x), Fraction(w)) for x, w in xws if w != 0]
-    n = len(eff)
+    n = len(eff) if count is None else (count if eff else 0)
     r = {"count": n}
     if n == 0:
         r.update(min=None, max=None, mean=None, variance=Fraction(0), stddev=0.0, skewness=0.0, kurtosis=0.0, scale=0.0, kappa=1.0)
@@ -537,6 +559,28 @@ def scenario_ops(scn):
         i1 = emit(("wget", 1))
         checks.append(("bitwise", i0, i1))
         checks.append(("stats", emit(("wstat", 0)), xws, len(xws), ""))
+    elif kind == "bigmerge":
+        # billions of samples without adding them: merge(s, s, s) is the summary of the data taken twice, so ka self-merges
+        # give the summary of `a` repeated 2^ka times.  Then A and B are merged: counts (and their product) cross 2^32 / 2^64.
+        wt = bool(scn.get("weighted"))
+        pre = "w" if wt else "d"
+        parts = []
+        for slot, (key, kk) in enumerate((("a", "ka"), ("b", "kb"))):
+            data = [(float(e[0]), float(e[1])) for e in scn[key]] if wt else [(float(x), 1.0) for x in scn[key]]
+            emit((pre + "init", slot))
+            for x, w in data:
+                emit(("wadd", slot, x, w) if wt else ("dadd", slot, x))
+            for _ in range(int(scn[kk])):
+                emit((pre + "merge", slot, slot, slot))
+            parts.append((data, int(scn[kk])))
+        a, b = (0, 1) if scn.get("order", "ab") == "ab" else (1, 0)
+        tgt = {"new": 7, "a": a, "b": b}[scn.get("target", "new")]
+        emit((pre + "merge", tgt, a, b))
+        xws = [(x, w * 2 ** k) for data, k in parts for x, w in data]
+        cnt = sum(len([1 for _, w in data if w != 0]) * 2 ** k for data, k in parts)
+        nops = sum(len(data) + k for data, k in parts) + 1
+        checks.append(("stats", emit((pre + "stat", tgt)), xws, nops,
+                       "merge of the data repeated 2^%d and 2^%d times (%d samples): " % (parts[0][1], parts[1][1], cnt), cnt))
     elif kind == "selfmerge":
         # one object as target and as both sources: the summary of the data taken twice
         xs = [float(x) for x in scn["xs"]]
@@ -588,9 +632,9 @@ def judge_scenario(scn, out_lines):
         return probs, 0
     for chk in checks:
         if chk[0] == "stats":
-            _, idx, xws, nops, label = chk
+            _, idx, xws, nops, label = chk[:5]
             got = parse_S(out_lines[idx])
-            p, s = judge_stats(got, exact_stats(xws), nops, label)
+            p, s = judge_stats(got, exact_stats(xws, chk[5] if len(chk) > 5 else None), nops, label)
             probs += p
             skipped += s
         elif chk[0] == "close":
@@ -695,7 +739,7 @@ def gen_scenarios(seed, total, quick=True, exclude=()):
     """exclude: predicates (scenario -> bool) of known-finding triggers"""
     rng = random.Random(seed * 1000003 + 5)
     out = []
-    kinds = ["seq", "merge_all_splits", "seq", "merge", "merge3", "wseq", "seq", "wmerge", "wscale", "wunit", "wzero", "merge_empty", "wseq", "dataset", "timeseries", "selfmerge"]
+    kinds = ["seq", "merge_all_splits", "seq", "merge", "merge3", "wseq", "seq", "wmerge", "wscale", "wunit", "wzero", "merge_empty", "wseq", "dataset", "timeseries", "selfmerge", "bigmerge"]
     while len(out) < total:
         kind = kinds[len(out) % len(kinds)] if rng.random() < 0.8 else rng.choice(kinds)
         fam = rng.choice(VALUE_FAMS)
@@ -757,6 +801,33 @@ def gen_scenarios(seed, total, quick=True, exclude=()):
             new.append({"kind": "wzero", "xws": [list(p) for p in zip(xs, ws)]})
         elif kind == "selfmerge":
             new.append({"kind": "selfmerge", "xs": xs[:40], "weighted": rng.random() < 0.5})
+        elif kind == "bigmerge":
+            # values of moderate magnitude: with 2^60 copies of 1e70 the sums of 4th powers leave the range of a double
+            vf = fam if fam not in ("huge", "tiny") else rng.choice(["normal", "small_int", "uniform"])
+            a = gen_values(rng, vf, rng.randint(1, 5))
+            b = gen_values(rng, vf, rng.randint(1, 5))
+            la, lb = len(a), len(b)
+            mode = rng.choice(["around32", "around32", "product64", "lopsided", "small"])
+            if mode == "around32":        # each count close to 2^32: the product of the counts is close to 2^64
+                ka, kb = rng.randint(29, 34), rng.randint(29, 34)
+            elif mode == "product64":     # ka + kb around 64 whatever the individual sizes
+                ka = rng.randint(20, 44)
+                kb = max(0, 64 - ka + rng.randint(-3, 3))
+            elif mode == "lopsided":      # one count close to 2^63, the other one small
+                ka, kb = rng.choice([(rng.randint(58, 60), rng.randint(0, 8)), (rng.randint(0, 8), rng.randint(58, 60))])
+            else:
+                ka, kb = rng.randint(0, 12), rng.randint(0, 12)
+            while la * 2 ** ka + lb * 2 ** kb >= 2 ** 63:      # the merged count itself stays below 2^63
+                if ka >= kb:
+                    ka -= 1
+                else:
+                    kb -= 1
+            wt = rng.random() < 0.3
+            if wt:
+                a = [list(p) for p in zip(a, gen_weights(rng, la, zero_ok=False, unit=1.0))]
+                b = [list(p) for p in zip(b, gen_weights(rng, lb, zero_ok=False, unit=1.0))]
+            new.append({"kind": "bigmerge", "a": a, "b": b, "ka": ka, "kb": kb, "order": rng.choice(["ab", "ba"]),
+                        "target": rng.choice(["new", "a", "b"]), "weighted": wt})
         elif kind == "dataset":
             new.append({"kind": "dataset", "xs": xs})
         elif kind == "timeseries":
@@ -788,6 +859,8 @@ def scenario_samples(scn):
         return len(scn["xs"])
     if k == "timeseries":
         return len(scn["xts"])
+    if k == "bigmerge":
+        return len(scn["a"]) + len(scn["b"])
     if k == "merge":
         return sum(len(p) for p in scn["parts"]) + len(scn.get("then", []))
     if k in ("wseq", "wscale", "wzero"):
